@@ -1,5 +1,6 @@
 import Zstd.Model.FrameDecoder
 import Zstd.Proofs.FrameDecoderStandIn
+import Zstd.Proofs.DictParse
 import Zstd.Proofs.DictCopy
 /-
 C09 — dictionary frames decode correctly; a missing dictionary is an error.
@@ -465,5 +466,43 @@ example : (match resetCore ([] : List (Dict Spec.Entropy)) (2 ^ 27) [0x28, 0xB5,
 (`if fromDict > dict.size then error`): a match may reach back to the FIRST byte of the dictionary content, not further -/
 theorem dict_reach_guard_is_the_models (fromDict dictSize : Nat) :
     Gen.dictReachTooFar fromDict dictSize = decide (fromDict > dictSize) := rfl
+
+
+/-! ### the dictionary parser of the executable model (`Blk.decodeDict` = `Dictionary::decode_dict`) -/
+
+open Zstd.Proofs.BitIO (Bytes) in
+/-- **every dictionary the Spec parses (§5), `Dictionary::decode_dict` parses**: same id, same content,
+same three repeat offsets, Huffman and FSE tables coupled with the Spec's (`Proofs.Blk.Coupled`) — so the
+`DictsCoupled` hypothesis of the dictionary forms of C01 / C06 / C08 / C10 holds for decoders whose
+dictionaries were registered through `add_dict` of parsed bytes (`parsed_dicts_coupled`) -/
+theorem parsed_dictionary_is_the_specs {raw : List Nat} (hb : Bytes raw) {sd : Spec.Dict}
+    (h : Spec.parseDict raw = some sd) :
+    ∃ d, Blk.decodeDict raw = .ok (some d) ∧ d.id = sd.id ∧ d.content = sd.content ∧
+      Zstd.Proofs.Blk.Coupled sd.entropy d.entropy :=
+  decodeDict_refines hb h
+
+open Zstd.Proofs.BitIO (Bytes) in
+theorem parsed_dicts_coupled (d : DecB) (sdicts : List Spec.Dict) (raws : List (List Nat))
+    (hb : ∀ raw ∈ raws, Bytes raw) (hs : ∀ raw ∈ raws, (Spec.parseDict raw).isSome = true)
+    (h : DictsCoupled d.dicts sdicts) :
+    DictsCoupled (registerDicts d raws).dicts (specRegisterDicts sdicts raws) :=
+  registerDicts_coupled d sdicts raws hb hs h
+
+open Zstd.Proofs.BitIO (Bytes) in
+/-- **hostile dictionaries**: on ANY byte string `decode_dict` never panics, and every dictionary it
+returns — whatever its three repeat offsets, which it copies unchecked (0 included) — carries a
+well-formed entropy state, so decoding with it never panics either (C03 `no_fault_from_legal_states`:
+`Legal.addDict` takes any bytes the parser accepts) -/
+theorem hostile_dictionary_is_harmless {raw : List Nat} (hb : Bytes raw) :
+    (∀ f, Blk.decodeDict raw ≠ .error f) ∧ (∀ d, Blk.decodeDict raw = .ok (some d) → Blk.WF d.entropy) :=
+  decodeDict_spec hb
+
+/-- (the code's parser is more lenient than §5 on one point the decoder then guards itself: the Spec
+rejects a dictionary whose repeat offsets are 0 or beyond its content, `decode_dict` copies them
+unchecked — an offset 0 reaches `execute_sequences` as `ZeroOffset`, one beyond the content as
+`NotEnoughBytesInDictionary` / `OffsetTooBig`, `offset_beyond_rejected` above.)
+Non-vacuity of the parser model: the magic number and an id but no tables is an error, not a fault -/
+example : (match Blk.decodeDict ([0x37, 0xA4, 0x30, 0xEC] ++ [1, 0, 0, 0]) with | .ok none => true | _ => false) = true := by
+  decide +kernel
 
 end Zstd.Props.C09
